@@ -18,7 +18,7 @@ THEOREMS = ['Fsic.C10.' + n for n in [
     'no_shadow_step', 'no_shadow_history', 'access_paths_agree_attribute',
     'access_paths_agree_label_write',
     'access_paths_agree_pos_write', 'access_paths_agree_whole_write', 'access_paths_agree_slice_write',
-    'write_touches_only_target',
+    'write_touches_only_target', 'access_defined_on_index',
     'alias_resolves_names_only', 'alias_label_passthrough', 'alias_label_get', 'alias_label_set',
     'alias_missing_label_keyerror', 'alias_paths_agree']]
 RULE = ('every span of each type up to the length bound (ranges with non-zero origin and step, lists and tuples of '
@@ -36,7 +36,9 @@ RULE = ('every span of each type up to the length bound (ranges with non-zero or
         'live arrays (another variable\'s own array or a view of it, one caller-owned float64 array given to two '
         'variables) followed by label / slice / positional writes with read-back of ALL variables; alternative '
         'spellings of pandas time labels (period / ISO strings, datetime.date, datetime.datetime, partial strings) '
-        'judged by pandas\' get_loc on the span the object was GIVEN, also after copy and reindex. '
+        'judged by pandas\' get_loc on the span the object was GIVEN, also after copy and reindex; on model-like '
+        'classes (BaseModel, parser-built, BaseLinker, alias-enabled, TracerMixin) the same accesses on the container '
+        'variables that are not model variables — status (str), iterations (int), trace (object) — plus `name in obj`. '
         'Whole space enumerated (seed-independent) on VectorContainer; BaseModel (hand-written / parser-built) and '
         'BaseLinker instances take every second span in a fixed rotation (every span in the thorough tier). distinct = distinct (flavour, span, access); non-trivial = the access addresses at least one '
         'period or must raise KeyError')
@@ -52,7 +54,7 @@ ASSUMPTIONS = ['labels identify periods: the oracle speaks about spans whose lab
                'step > 0; spans of length >= 1 for open-ended slices']
 
 META = {
-    "text": "Theorems over the container model M6, for every well-formed store, span, label and slice: Python slice semantics for all bounds and positive steps (pySlice_spec, clamp_spec); a label is located at its first occurrence / at its unique occurrence for NumPy spans and a label not in the span is missing (locate_*); obj[name, label] reads and writes exactly the element at the label's position, nothing else changes (label_get, label_set, label_set_frame); obj[name, a:b:s] addresses pos(a), pos(a)+s, ... up to and including pos(b), nothing if pos(a) > pos(b), open ends = span ends for distinct labels (label_slice_*); a missing label raises KeyError on reads and writes, single or slice end, and leaves the store unchanged (missing_label_keyerror); a value written through label, position, name key / attribute or label slice is read back through each of the others (access_paths_agree_*); what an access addresses depends on the span alone and is unchanged by every history of operations (access_depends_only_on_span, access_unchanged_by_history); a write to one variable leaves every other variable's every cell unchanged, for every store, operand and single-variable assignment — whole-series assignment stores values, variables never share storage (write_touches_only_target); through an alias-enabled class (AliasMixin, model M8's resolve composed with M6) the alias is resolved in the name position only and the label or label slice is passed through unchanged, also when it is spelled like an alias or a variable (alias_*). The attribute path is proved when no attribute-list entry carries the variable's name: as shipped, add_variable accepts the name of an existing ad-hoc attribute and obj.name then returns the stale attribute (negation proved at a witness for the shipped configuration, reproduced on the real code, open known finding); for a configuration in which add_variable also checks the attribute list (a reflected switch, probed on every run) that situation is unreachable (no_shadow_step / no_shadow_history) and the attribute path agrees at full strength (access_paths_agree_attribute). pandas get_loc is an input of the model (partial). The model is tied to the code by exhaustive enumeration of spans x labels x slice triples x get/set on all span types, compared after every operation.",
+    "text": "Theorems over the container model M6, for every well-formed store, span, label and slice: Python slice semantics for all bounds and positive steps (pySlice_spec, clamp_spec); a label is located at its first occurrence / at its unique occurrence for NumPy spans and a label not in the span is missing (locate_*); obj[name, label] reads and writes exactly the element at the label's position, nothing else changes (label_get, label_set, label_set_frame); obj[name, a:b:s] addresses pos(a), pos(a)+s, ... up to and including pos(b), nothing if pos(a) > pos(b), open ends = span ends for distinct labels (label_slice_*); a missing label raises KeyError on reads and writes, single or slice end, and leaves the store unchanged (missing_label_keyerror); a value written through label, position, name key / attribute or label slice is read back through each of the others (access_paths_agree_*); what an access addresses depends on the span alone and is unchanged by every history of operations (access_depends_only_on_span, access_unchanged_by_history); a write to one variable leaves every other variable's every cell unchanged, for every store, operand and single-variable assignment — whole-series assignment stores values, variables never share storage (write_touches_only_target); every access path by name is defined exactly on index — a model's status / iterations / trace are addressable like any variable although `name in obj` (names) excludes them (access_defined_on_index); through an alias-enabled class (AliasMixin, model M8's resolve composed with M6) the alias is resolved in the name position only and the label or label slice is passed through unchanged, also when it is spelled like an alias or a variable (alias_*). The attribute path is proved when no attribute-list entry carries the variable's name: as shipped, add_variable accepts the name of an existing ad-hoc attribute and obj.name then returns the stale attribute (negation proved at a witness for the shipped configuration, reproduced on the real code, open known finding); for a configuration in which add_variable also checks the attribute list (a reflected switch, probed on every run) that situation is unreachable (no_shadow_step / no_shadow_history) and the attribute path agrees at full strength (access_paths_agree_attribute). pandas get_loc is an input of the model (partial). The model is tied to the code by exhaustive enumeration of spans x labels x slice triples x get/set on all span types, compared after every operation.",
     "design_ref": "DESIGN.md §5 M6, §6 C10",
     "note": "Partial: pandas' get_loc is not modelled — its recorded answers are inputs. Trusted: Lean kernel; axioms propext/Classical.choice/Quot.sound; the correspondence harness; Python ==/hash for label identity; NumPy basic slicing. The oracle assumes pairwise distinct labels. Attribute-path agreement is claimed only outside the known finding (variable created with the name of an existing attribute).",
     "technique": "Lean 4 proof (slice arithmetic, first-occurrence search, get-after-set lemmas) + exhaustive differential correspondence check"
@@ -223,6 +225,65 @@ def sequence_cases(flavour, tag, spec, n, equal, absent, partial, steps):
         ops += [{'op': 'reindex', 'span': target}] + accesses(74.0)
         ops += [{'op': 'setAttr', 'name': 'X', 'v': enc_operand(5.5)}] + accesses(75.0)
         yield {'flavour': flavour, 'strict': False, 'span': spec, 'tag': tag, 'part': 'sequence', 'ops': ops}
+
+
+STATUS = ['-', '.', 'F', 'E', 'S', '.', 'F']
+
+
+def hidden_var_cases(flavour, tag, spec, n, absent, partial, steps):
+    """Model-like objects keep `status`, `iterations` (and a tracer's `trace`) as ordinary container variables: they
+    are in `index` — every access path works on them — but not in `names` (`'status' in model` is False)."""
+    span = cc.make_span(spec)
+    own = [L(x) for x in span]
+    ab = [L(x) for x in absent[:1]] + [L(x) for x in partial[:1]]
+    variables = [('iterations', W0[:n], 42, [7, 8]), ('status', STATUS[:n], 'E', ['S', 'F'])]
+    if flavour == 'tracer':
+        variables.append(('trace', None, {'t': 'obj', 'id': 0}, None))
+    base = {'flavour': flavour, 'strict': False, 'span': spec, 'tag': f'hidden:{tag}', 'part': 'hidden'}
+    if flavour in ('amodel', 'alinker'):
+        base['aliases'] = ALIASES
+    E = lambda v: v if isinstance(v, dict) else enc_operand(v)
+    for var, init, newv, pair in variables:
+        def reads():
+            return [{'op': 'getItem', 'name': var}, {'op': 'getAttr', 'name': var}, {'op': 'getPos', 'name': var, 'i': -1},
+                    {'op': 'getLabel', 'name': var, 'label': own[0]}, {'op': 'getItem', 'name': 'Y'},
+                    {'op': 'getItem', 'name': 'iterations'}]
+
+        def accesses(k0):
+            ops = []
+            for lab in own + ab:
+                ops.append({'op': 'getLabel', 'name': var, 'label': lab})
+                ops.append({'op': 'setLabel', 'name': var, 'label': lab,
+                            'v': E(newv if not isinstance(newv, int) else newv + k0)})
+                ops += reads()
+            for a in [None] + own + ab[:1]:
+                for b in [None] + own + ab[:1]:
+                    for st in steps:
+                        ops.append({'op': 'getLabelSlice', 'name': var, 'a': a, 'b': b, 'step': st})
+                    ops.append({'op': 'setLabelSlice', 'name': var, 'a': a, 'b': b, 'step': None,
+                                'v': E(newv if not isinstance(newv, int) else newv + k0 + 1)})
+                    ops.append({'op': 'getItem', 'name': var})
+            if pair is not None:
+                ops.append({'op': 'setLabelSlice', 'name': var, 'a': own[0], 'b': own[min(1, n - 1)], 'step': None, 'v': E(pair[:min(2, n)])})
+                ops += reads()
+            ops.append({'op': 'setPos', 'name': var, 'i': 0, 'v': E(newv)})
+            ops += reads()
+            return ops
+        ops = [{'op': 'contains', 'name': x} for x in ('status', 'iterations', 'trace', 'Y', 'C', 'nope')]
+        if init is not None:
+            ops.append({'op': 'setItem', 'name': var, 'v': enc_operand(init)})       # whole series by name key
+            ops += reads()
+            ops.append({'op': 'setAttr', 'name': var, 'v': enc_operand(init[0])})    # whole series by attribute (scalar)
+            ops.append({'op': 'setAttr', 'name': var, 'v': enc_operand(tuple(init))})
+            ops.append({'op': 'replaceValues', 'kvs': [[var, enc_operand(init)], ['Y', enc_operand(1.5)]]})
+            ops += reads()
+        ops += accesses(0)
+        ops += [{'op': 'copy'}] + accesses(10)[:60]
+        if flavour not in ('linker', 'alinker'):
+            targets = reindex_targets(tag, spec, n)
+            if targets:
+                ops += [{'op': 'reindex', 'span': targets[0]}] + [{'op': 'contains', 'name': var}] + accesses(20)[:80]
+        yield {**base, 'ops': ops, 'var': var}
 
 
 def sharing_cases(flavour, tag, spec, n, aliases=None):
@@ -450,7 +511,7 @@ class Oracle:
     def expect_written(self, obj, name, before, out, idx, item, how):
         """A write of an operand through `how` must change exactly the positions `idx` of `name`."""
         after = cc.snapshot(obj)
-        v = cc.dec_operand(item['v'])
+        v = item['_py'] if '_py' in item else cc.dec_operand(item['v'])
         want = before[name].copy()
         try:
             want[idx] = v
@@ -672,6 +733,25 @@ def all_cases(ctx, nmax, steps, seq_lengths=(4,)):
     for c in shadow_cases():
         cases.append(c)
         partials.append([])
+    # the container variables of model-like classes that are not model variables: status, iterations, trace
+    k = 0
+    for n in ((3,) if ctx.tier == 'quick' else (1, 2, 3, 4)):
+        for tag, spec, equal, absent, partial in span_catalogue(n):
+            if tag.endswith('-dup'):
+                continue
+            k += 1
+            fls = ['model', 'built', 'linker', 'tracer']
+            fls = [fls[k % 4], 'tracer'] if ctx.tier == 'quick' else fls
+            for fl in dict.fromkeys(fls):
+                for c in hidden_var_cases(fl, tag, spec, n, absent, partial, [None, 2]):
+                    cases.append(c)
+                    partials.append([L(x) for x in partial])
+    for span_type in ('list', 'pindex'):
+        spec = {'type': span_type, 'labels': [L(x) for x in ALIAS_SPANS[0][1]]}
+        for fl in ('amodel', 'alinker'):
+            for c in hidden_var_cases(fl, 'alias-' + span_type, spec, 4, ALIAS_SPANS[0][2], [], [None, 2]):
+                cases.append(c)
+                partials.append([])
     # live arrays assigned between variables, then label writes (n = 4; every span type; all kinds of classes)
     k = 0
     for tag, spec, equal, absent, partial in span_catalogue(4):
